@@ -762,6 +762,9 @@ package compose
 //@ spec nodesOK(nodes map[string]*chanCall) bool = forall(k string :: in(k, nodes) ==> nodes[k] != nil && nodes[k].action != nil)
 //@ spec optMapFresh(m map[string][]any) bool = m != nil && fresh(m) && forall(k string :: in(k, m) ==> m[k] == nil || fresh(m[k]))
 
+// a nested graph is the only node built with a nil option type that is not a pass-through (graph_run.go toComposableRunnable; runnable.go composablePassthrough); every component and lambda has a non-nil option type
+//@ spec isGraphNode(c *chanCall) bool = c.action.optionType == nil && !c.action.isPassthrough
+
 //@ func extractOption
 //@   props C16 C09
 //@   after call 3 append: assert[option_forwarded_to_a_nested_graph_is_undesignated] @C16 len(result) >= 1 && is(result[len(result) - 1], "Option") && len(unbox(result[len(result) - 1], "Option").paths) == 0
@@ -770,25 +773,29 @@ package compose
 //@   ensures[keys] result1 == nil ==> forall(k string :: in(k, result0) ==> in(k, nodes))
 //@   ensures[err_empty_path] (exists(j int, p int :: 0 <= j && j < len(opts) && 0 <= p && p < len(opts[j].paths) && len(opts[j].paths[p].path) == 0)) ==> result1 != nil
 //@   ensures[err_unknown_node] (exists(j int, p int :: 0 <= j && j < len(opts) && 0 <= p && p < len(opts[j].paths) && len(opts[j].paths[p].path) > 0 && !in(opts[j].paths[p].path[0], nodes))) ==> result1 != nil
-//@   ensures[err_subpath_of_component] (exists(j int, p int :: 0 <= j && j < len(opts) && 0 <= p && p < len(opts[j].paths) && len(opts[j].paths[p].path) > 1 && in(opts[j].paths[p].path[0], nodes) && nodes[opts[j].paths[p].path[0]].action.optionType != nil)) ==> result1 != nil
-//@   ensures[err_wrong_type] (exists(j int, p int :: 0 <= j && j < len(opts) && 0 <= p && p < len(opts[j].paths) && len(opts[j].paths[p].path) == 1 && len(opts[j].options) > 0 && in(opts[j].paths[p].path[0], nodes) && nodes[opts[j].paths[p].path[0]].action.optionType != nil && nodes[opts[j].paths[p].path[0]].action.optionType != typeOf(opts[j].options[0]))) ==> result1 != nil
+//@   ensures[err_subpath_of_component] (exists(j int, p int :: 0 <= j && j < len(opts) && 0 <= p && p < len(opts[j].paths) && len(opts[j].paths[p].path) > 1 && in(opts[j].paths[p].path[0], nodes) && !isGraphNode(nodes[opts[j].paths[p].path[0]]))) ==> result1 != nil
+//@   ensures[err_wrong_type] (exists(j int, p int :: 0 <= j && j < len(opts) && 0 <= p && p < len(opts[j].paths) && len(opts[j].paths[p].path) == 1 && len(opts[j].options) > 0 && in(opts[j].paths[p].path[0], nodes) && !isGraphNode(nodes[opts[j].paths[p].path[0]]) && nodes[opts[j].paths[p].path[0]].action.optionType != typeOf(opts[j].options[0]))) ==> result1 != nil
+//@   ensures[passthrough_takes_no_option] result1 == nil ==> forall(k string :: in(k, nodes) && nodes[k].action.isPassthrough ==> len(result0[k]) == 0)
 //@   ensures[no_type_no_option] result1 == nil ==> forall(k string :: in(k, nodes) && nodes[k].action.optionType != nil && (forall(j int :: 0 <= j && j < len(opts) && len(opts[j].options) > 0 ==> typeOf(opts[j].options[0]) != nodes[k].action.optionType)) ==> len(result0[k]) == 0)
 //@   loop 1:
 //@     modifies fresh()
 //@     invariant[fresh] optMapFresh(optMap)
 //@     invariant[keys] forall(k string :: in(k, optMap) ==> in(k, nodes))
-//@     invariant[no_bad_path] forall(j int, p int :: 0 <= j && j < $i && 0 <= p && p < len(opts[j].paths) ==> len(opts[j].paths[p].path) > 0 && in(opts[j].paths[p].path[0], nodes) && (len(opts[j].paths[p].path) > 1 ==> nodes[opts[j].paths[p].path[0]].action.optionType == nil) && (len(opts[j].paths[p].path) == 1 && len(opts[j].options) > 0 && nodes[opts[j].paths[p].path[0]].action.optionType != nil ==> nodes[opts[j].paths[p].path[0]].action.optionType == typeOf(opts[j].options[0])))
+//@     invariant[passthrough_takes_no_option] forall(k string :: in(k, nodes) && nodes[k].action.isPassthrough ==> len(optMap[k]) == 0)
+//@     invariant[no_bad_path] forall(j int, p int :: 0 <= j && j < $i && 0 <= p && p < len(opts[j].paths) ==> len(opts[j].paths[p].path) > 0 && in(opts[j].paths[p].path[0], nodes) && (len(opts[j].paths[p].path) > 1 ==> isGraphNode(nodes[opts[j].paths[p].path[0]])) && (len(opts[j].paths[p].path) == 1 && len(opts[j].options) > 0 && !isGraphNode(nodes[opts[j].paths[p].path[0]]) ==> nodes[opts[j].paths[p].path[0]].action.optionType == typeOf(opts[j].options[0])))
 //@     invariant[no_type_no_option] forall(k string :: in(k, nodes) && nodes[k].action.optionType != nil && (forall(j int :: 0 <= j && j < $i && len(opts[j].options) > 0 ==> typeOf(opts[j].options[0]) != nodes[k].action.optionType)) ==> len(optMap[k]) == 0)
 //@   loop 2:
 //@     modifies map(optMap), fresh()
 //@     invariant[fresh] optMapFresh(optMap)
 //@     invariant[keys] forall(k string :: in(k, optMap) ==> in(k, nodes))
+//@     invariant[passthrough_takes_no_option] forall(k string :: in(k, nodes) && nodes[k].action.isPassthrough ==> len(optMap[k]) == 0)
 //@     invariant[no_type_no_option] forall(k string :: in(k, nodes) && nodes[k].action.optionType != nil && (forall(j int :: 0 <= j && j <= $i_1 && len(opts[j].options) > 0 ==> typeOf(opts[j].options[0]) != nodes[k].action.optionType)) ==> len(optMap[k]) == 0)
 //@   loop 3:
 //@     modifies map(optMap), fresh()
 //@     invariant[fresh] optMapFresh(optMap)
 //@     invariant[keys] forall(k string :: in(k, optMap) ==> in(k, nodes))
-//@     invariant[no_bad_path] forall(p int :: 0 <= p && p < $i ==> len(opt.paths[p].path) > 0 && in(opt.paths[p].path[0], nodes) && (len(opt.paths[p].path) > 1 ==> nodes[opt.paths[p].path[0]].action.optionType == nil) && (len(opt.paths[p].path) == 1 && len(opt.options) > 0 && nodes[opt.paths[p].path[0]].action.optionType != nil ==> nodes[opt.paths[p].path[0]].action.optionType == typeOf(opt.options[0])))
+//@     invariant[passthrough_takes_no_option] forall(k string :: in(k, nodes) && nodes[k].action.isPassthrough ==> len(optMap[k]) == 0)
+//@     invariant[no_bad_path] forall(p int :: 0 <= p && p < $i ==> len(opt.paths[p].path) > 0 && in(opt.paths[p].path[0], nodes) && (len(opt.paths[p].path) > 1 ==> isGraphNode(nodes[opt.paths[p].path[0]])) && (len(opt.paths[p].path) == 1 && len(opt.options) > 0 && !isGraphNode(nodes[opt.paths[p].path[0]]) ==> nodes[opt.paths[p].path[0]].action.optionType == typeOf(opt.options[0])))
 //@     invariant[no_type_no_option] forall(k string :: in(k, nodes) && nodes[k].action.optionType != nil && (forall(j int :: 0 <= j && j <= $i_1 && len(opts[j].options) > 0 ==> typeOf(opts[j].options[0]) != nodes[k].action.optionType)) ==> len(optMap[k]) == 0)
 
 //@ spec designatedTo(o Option, key string) bool = exists(p int :: 0 <= p && p < len(o.paths) && len(o.paths[p].path) == 1 && o.paths[p].path[0] == key)
@@ -1201,7 +1208,9 @@ package compose
 //@     modifies chanFields(c)
 
 //@ func (*runner).handleInterrupt
-//@   props C06 C05
+//@   props C06 C05 C11
+//@   at call r.checkPointer.convertCheckPoint: assert[only_this_graph_s_own_state_is_checkpointed] @C11 r.runCtx == nil ==> arg0.State == nil
+//@   at call r.checkPointer.convertCheckPoint: assert[state_in_use_is_the_state_checkpointed] @C11 r.runCtx != nil && is(ctxValue(ctx, "stateKey"), "*internalState") ==> arg0.State == unbox(ctxValue(ctx, "stateKey"), "*internalState").state
 //@   requires r != nil && r.checkPointer != nil && ctxOK(ctx) && forall(i int :: 0 <= i && i < len(nextTasks) ==> nextTasks[i] != nil)
 //@   ghost setCalls int = 0
 //@   at call r.checkPointer.set: ghost setCalls++
@@ -1240,14 +1249,19 @@ package compose
 //@   at call cm.updateValues: ghost valsFolded++
 //@   at call cm.updateDependencies: ghost depsFolded++
 //@   at call r.checkPointer.convertCheckPoint: assert[skip_pre_handler_flags_saved] @C05,C11 arg0 != nil && arg0.SkipPreHandler == skipPreHandler
+//@   at call r.checkPointer.convertCheckPoint: assert[ready_tasks_saved] @C05 forall(i int :: 0 <= i && i < len(readyTasks) ==> in(readyTasks[i].nodeKey, arg0.Inputs))
+//@   at call r.checkPointer.convertCheckPoint: assert[only_this_graph_s_own_state_is_checkpointed] @C11 r.runCtx == nil ==> arg0.State == nil
+//@   at call r.checkPointer.convertCheckPoint: assert[state_in_use_is_the_state_checkpointed] @C11 r.runCtx != nil && is(ctxValue(ctx, "stateKey"), "*internalState") ==> arg0.State == unbox(ctxValue(ctx, "stateKey"), "*internalState").state
 //@   at call r.checkPointer.convertCheckPoint: assert[finished_siblings_folded_into_the_channels_before_saving] @C05 valsFolded == 1 && depsFolded == 1
 //@   at call r.checkPointer.set: assert[top_level_with_id_only] @C06 !isSubGraph && checkPointID != nil
 //@   at call r.checkPointer.set: ghost saved++
 //@   ensures[always_error] result != nil
 //@   ensures[checkpoint_written_at_most_once] @C06 saved <= 1 && (isSubGraph ==> saved == 0) && (checkPointID == nil ==> saved == 0)
+//@   loop 5:
+//@     invariant[ready_saved] forall(i int :: 0 <= i && i < $i ==> in(readyTasks[i].nodeKey, cp.Inputs))
 
 //@ func (*runner).run
-//@   props C01 C03 C05 C06 C10
+//@   props C01 C03 C05 C06 C10 C11
 //@   paths 1
 //@   skip pre safe frame
 //@   uses getHitKey (*runner).resolveInterruptCompletedTasks (*runner).handleInterrupt (*runner).handleInterruptWithSubGraphAndRerunNodes newGraphRunError (*taskManager).waitAll (*taskManager).wait
@@ -1261,12 +1275,15 @@ package compose
 //@   at call onGraphEnd: ghost ends++
 //@   at call onGraphError: ghost ends++
 //@   at call r.restoreTasks: ghost fromCp = true
+//@   at call r.restoreTasks: assert[resumed_run_uses_the_checkpointed_state] @C11 cp.State != nil ==> is(ctxValue(arg0, "stateKey"), "*internalState") && unbox(ctxValue(arg0, "stateKey"), "*internalState") != nil && unbox(ctxValue(arg0, "stateKey"), "*internalState").state == cp.State
 //@   at call tm.submit: assert[step_bound] @C01 r.dag || supersteps < maxSteps
 //@   at call tm.submit: assert[interrupt_before_honoured] @C06 (supersteps == 0 && fromCp) || noneBefore(r, nextTasks)
 //@   at call tm.submit: ghost supersteps++
 //@   at call 1 r.handleInterrupt: assert[initial_before_reported] @C06 forall(i int :: 0 <= i && i < len(nextTasks) && inList(nextTasks[i].nodeKey, r.interruptBeforeNodes) ==> inList(nextTasks[i].nodeKey, hit))
 //@   at call r.handleInterruptWithSubGraphAndRerunNodes: assert[nothing_outstanding_when_interrupting] @C03 tm.num == 0
 //@   at call 2 r.handleInterrupt: assert[nothing_outstanding_when_interrupting_plain] @C03 tm.num == 0
+//@   at call 2 r.handleInterruptWithSubGraphAndRerunNodes: assert[tasks_made_ready_before_the_drain_are_saved] @C05 len(arg5) == len(nextTasks) && arr(arg5) == arr(nextTasks) && off(arg5) == off(nextTasks)
+//@   at call 2 r.handleInterruptWithSubGraphAndRerunNodes: assert[tasks_already_folded_are_not_folded_again] @C05 len(arg4) == len(newCompletedTasks) && arr(arg4) == arr(newCompletedTasks) && off(arg4) == off(newCompletedTasks)
 //@   ghost afterHit bool = false
 //@   after call 1 r.resolveInterruptCompletedTasks: ghost afterHit = len(interruptAfterNodes) > 0
 //@   at call 2 r.handleInterrupt: assert[no_rerun_or_subgraph_interrupt_dropped] @C06 len(interruptRerunNodes) == 0 && len(subGraphInterrupts) == 0
